@@ -493,19 +493,26 @@ package store
 
 // The parallel path (ranges of deleteRangeParallelThreshold headers and more) runs worker goroutines over a
 // job channel: outside the verified fragment. Its contract is ASSUMED to be the one proved for deleteSequential.
+// order used by deleteParallel's sort: int(a-b) <= 0 on uint64 heights, i.e. a <= b whenever both are below 2^63
+//@ pure ordLE(a, b) = a == b || ite(a < b, a - b + 18446744073709551616, a - b) >= 9223372036854775808
 //@ func (*Store).deleteParallel(s, ctx, from, to)
-//@   trusted
-//@   requires storeINV(s) && !isBatch(s.ds) && from <= to
-//@   modifies $now, ghost:hcHas, ghost:icHas, ghost:icVal, ghost:hCalls, ghost:dsHas, ghost:dsWrites, ghost:dsDeletes, MH_Int_Hdr_has, MH_Str_Int_has
-//@   ensures storeINV(s)
-//@   ensures from <= result0 && result0 <= to && (result2 == nil ==> result0 == to)
-//@   ensures forall h uint64 :: from <= h && h < result0 ==> gone(s, h)
-//@   ensures forall h uint64 :: (h < from || h >= to) ==> (dsHas[kHeight(h)] <==> old(dsHas)[kHeight(h)]) && (has(s.pending.headers, h) <==> old(has(s.pending.headers, h)))
+//@   props C08, C14
+//@   requires storeINV(s) && !isBatch(s.ds) && from <= to && deleteRangeParallelThreshold > 0
+//@   modifies $now, ghost:hcHas, ghost:icHas, ghost:icVal, ghost:hCalls, ghost:dsHas, ghost:dsWrites, ghost:dsDeletes, MH_Int_Hdr_has, MH_Str_Int_has, EH_Int, F_store_result_err, F_store_result_height, F_store_result_missing, EH_Err, F_keytransform_Datastore_KeyTransform, F_keytransform_Datastore_child, F_sync_Once__, F_sync_Once_done, F_sync_Once_m, ghost:dsVal
+//@   assumes storeINV(s)
+//@   assumes from <= result0 && result0 <= to && (result2 == nil ==> result0 == to)
+//@   assumes forall h uint64 :: from <= h && h < result0 ==> gone(s, h)
+//@   assumes forall h uint64 :: (h < from || h >= to) ==> (dsHas[kHeight(h)] <==> old(dsHas)[kHeight(h)]) && (has(s.pending.headers, h) <==> old(has(s.pending.headers, h)))
+//@   ensures [C08,C14] lowest-failure-first: result2 != nil ==> forall k int :: 0 <= k && k < len(cur(results)) && cur(results)[k].err != nil ==> ordLE(result0, cur(results)[k].height)
+//@ loop 2:
+//@   invariant bounds: -1 <= rangeindex && rangeindex + 1 <= len(results)
+//@   invariant no-error-so-far: forall k int :: 0 <= k && k <= rangeindex ==> results[k].err == nil
+//@   invariant ordered: forall i int, j int @ results[i], results[j] :: 0 <= i && i < j && j < len(results) ==> ordLE(results[i].height, results[j].height)
 
 //@ func (*Store).deleteRangeRaw(s, ctx, from, to)
 //@   props C08, C14
-//@   requires storeINV(s) && !isBatch(s.ds) && from <= to && deleteRangeParallelThreshold <= 4611686018427387904
-//@   modifies $now, ghost:hcHas, ghost:icHas, ghost:icVal, ghost:hCalls, ghost:dsHas, ghost:dsWrites, ghost:dsDeletes, MH_Int_Hdr_has, MH_Str_Int_has
+//@   requires storeINV(s) && !isBatch(s.ds) && from <= to && deleteRangeParallelThreshold > 0 && deleteRangeParallelThreshold <= 4611686018427387904
+//@   modifies $now, ghost:hcHas, ghost:icHas, ghost:icVal, ghost:hCalls, ghost:dsHas, ghost:dsWrites, ghost:dsDeletes, MH_Int_Hdr_has, MH_Str_Int_has, EH_Int, F_store_result_err, F_store_result_height, F_store_result_missing, EH_Err, F_keytransform_Datastore_KeyTransform, F_keytransform_Datastore_child, F_sync_Once__, F_sync_Once_done, F_sync_Once_m, ghost:dsVal
 //@   ensures [C08] inv: storeINV(s)
 //@   ensures [C08] progress-bounds: from <= result0 && result0 <= to
 //@   ensures [C08] complete-on-success: result2 == nil ==> result0 == to
@@ -524,14 +531,14 @@ package store
 // without effect; removes exactly the range; Head/Tail describe the remaining chain (C08)
 //@ func (*Store).DeleteRange(s, ctx, from, to)
 //@   props C08, C14, C04
-//@   requires storeINV(s) && s.ds != nil && !isBatch(s.ds) && deleteRangeParallelThreshold <= 4611686018427387904
+//@   requires storeINV(s) && s.ds != nil && !isBatch(s.ds) && deleteRangeParallelThreshold > 0 && deleteRangeParallelThreshold <= 4611686018427387904
 //@   rely after Sync: storeINV(s)
 //@   ghost hd H := result0 of call Head #0
 //@   ghost tl H := result0 of call Tail #0
 //@   ghost hderr error := result1 of call Head #0
 //@   ghost tlerr error := result1 of call Tail #0
 //@   ghost wiped error := result0 of call wipe #0
-//@   modifies $now, ghost:hcHas, ghost:hcVal, ghost:icHas, ghost:icVal, ghost:btHas, ghost:btPuts, ghost:btVal, ghost:dsHas, ghost:dsVal, ghost:dsWrites, ghost:dsDeletes, ghost:hCalls, AP_set, AP_val_Hdr, AT_u64, MH_Int_Hdr_has, MH_Int_Hdr_val, MH_Str_Int_has, MH_Str_Int_val, sub.count, MH_Int_Int_has, MH_Int_Int_val, ghost:arrived
+//@   modifies $now, ghost:hcHas, ghost:hcVal, ghost:icHas, ghost:icVal, ghost:btHas, ghost:btPuts, ghost:btVal, ghost:dsHas, ghost:dsVal, ghost:dsWrites, ghost:dsDeletes, ghost:hCalls, AP_set, AP_val_Hdr, AT_u64, MH_Int_Hdr_has, MH_Int_Hdr_val, MH_Str_Int_has, MH_Str_Int_val, sub.count, MH_Int_Int_has, MH_Int_Int_val, ghost:arrived, EH_Int, F_store_result_err, F_store_result_height, F_store_result_missing, EH_Err, F_keytransform_Datastore_KeyTransform, F_keytransform_Datastore_child, F_sync_Once__, F_sync_Once_done, F_sync_Once_m
 //@   ensures [C08] inv: storeINV(s)
 //@   ensures [C08] only-ends: result == nil ==> called(hd) && called(tl) && from < to && ((from == tl.Height() && to <= hd.Height() + 1) || (to == hd.Height() + 1 && from >= tl.Height()))
 //@   ensures [C08] rejected-no-effect: called(hd) && called(tl) && hderr == nil && tlerr == nil && !acceptedRange(from, to, hd, tl) ==> result != nil && dsDeletes == old(dsDeletes) && hCalls == old(hCalls) && apVal(s.contiguousHead) == hd && apVal(s.tailHeader) == tl && apSet(s.contiguousHead) && apSet(s.tailHeader)
